@@ -38,6 +38,24 @@ NCPU = os.cpu_count() or 4
 
 sys.path.insert(0, os.path.dirname(os.path.abspath(__file__)))
 
+# Development aid (never used by the registered commands): VERIF_REPO=<scratch worktree> runs the same check
+# against a scratch copy of the repository.  The harness crate is copied to VERIF_SCRATCH (default
+# <worktree>/.verif) with its path dependency redirected; work files, replays and evidence go there too, so
+# that several scratch trees can be checked in parallel without touching /repo or /verif/evidence.
+if os.environ.get("VERIF_REPO"):
+    _repo = os.path.abspath(os.environ["VERIF_REPO"])
+    _scr = os.path.abspath(os.environ.get("VERIF_SCRATCH", os.path.join(_repo, ".verif")))
+    os.makedirs(_scr, exist_ok=True)
+    _h = os.path.join(_scr, "harness")
+    os.makedirs(os.path.join(_h, ".cargo"), exist_ok=True)
+    shutil.rmtree(os.path.join(_h, "src"), ignore_errors=True)
+    shutil.copytree(os.path.join(HARN, "src"), os.path.join(_h, "src"))
+    shutil.copy(os.path.join(HARN, "Cargo.lock"), _h)
+    shutil.copy(os.path.join(HARN, ".cargo", "config.toml"), os.path.join(_h, ".cargo"))
+    with open(os.path.join(_h, "Cargo.toml"), "w") as _f:
+        _f.write(open(os.path.join(HARN, "Cargo.toml")).read().replace('path = "/repo"', 'path = "%s"' % _repo))
+    HARN, WORK, REPLAYS, EVID = _h, os.path.join(_scr, "work"), os.path.join(_scr, "replays"), os.path.join(_scr, "evidence")
+
 
 class ToolError(Exception):
     pass
